@@ -2,7 +2,7 @@
 # try_seed.sh <Cxx> <N> [extra props]: confirm a sub-agent's seeded change (applies, builds, suite passes, demo fails with / passes without),
 # then run our check(s) against it.  Uses the agent's scratch worktree /tmp/seed/<Cxx>.
 id=$1; n=$2; shift 2
-wt=/tmp/seed/$id
+wt=${SEEDBASE:-/tmp/seed}/$id
 sd=$wt/SEED/$n
 cd $wt || exit 3
 git checkout -q -- . ; make >/dev/null 2>&1
